@@ -85,7 +85,7 @@ pub fn strategy() -> impl Strategy<Value = Lit> {
         number_strategy(),
         prop_oneof![8 => Just(Deco::None), 1 => Just(Deco::Minus), 1 => Just(Deco::Plus), 1 => Just(Deco::Fraction), 1 => Just(Deco::Exponent), 1 => Just(Deco::LeadingZeros)],
         prop::sample::select(vec!["", "", " ", "  ", "\t", " \t "]),
-        prop_oneof![3 => Just(0u8), 8 => Just(1u8), 2 => Just(2u8), 1 => Just(3u8)],
+        prop_oneof![3 => Just(0u8), 8 => Just(1u8), 2 => Just(2u8), 1 => Just(3u8), 2 => Just(4u8)],
         any::<u16>(),
         any::<u32>(),
         prop_oneof![6 => Just(("", "")), 1 => Just((" ", "")), 1 => Just(("", " ")), 1 => Just(("\t", " "))],
@@ -102,6 +102,11 @@ pub fn strategy() -> impl Strategy<Value = Lit> {
                     }
                 }
                 2 => pick(&JUNK_UNITS[..], ui).to_string(),
+                // a documented unit followed by more words: the literal as a whole is not '<number><unit>'
+                4 => {
+                    let u = if interval { randcase(*pick(&TIME_UNITS[..], ui), mask) } else { randcase(pick(&SIZE_UNITS[..], ui).0, mask) };
+                    format!("{}{}", u, [" x", " 3", " 12 hours", "\tago", " kb", " 1"][(mask as usize >> 8) % 6])
+                }
                 // long junk: ASCII padding of 24..40 bytes followed by multi-byte characters (straddling byte 32, 64)
                 _ => format!("{}{}", "x".repeat(24 + (ui as usize % 17)), ["é", "漢", "😀", "é漢😀é漢😀é漢😀é漢😀"][(mask % 4) as usize]),
             };
@@ -379,7 +384,7 @@ pub fn replay(part: &str, case: serde_json::Value) -> Option<CaseResult> {
 pub fn meta() -> EvidenceMeta {
     EvidenceMeta {
         level: "exploration",
-        rule: "cases = literals composed of a number (0, 1, every overflow threshold floor(MAX/1024^k)-1..+2 for MAX in {u64::MAX, i64::MAX}, 2^k+-1, random 1-20 digits, 21-30 digits, no digits at all), a decoration (none, '-', '+', '.5', 'e3', leading zeros), whitespace before the unit (none/spaces/tab/mixed), a unit (every documented spelling in random letter case, none, or junk), optional outer whitespace, in one of seven carriers (YAML plain/quoted string, JSON string, TOML string, YAML/JSON/TOML bare numeric scalar), for SizeTriggerConfig (observed through Debug) and TimeTriggerInterval; oracle = u128 reference: value == number x unit (powers of 1024; named interval unit) when it fits u64 / i64, Err exactly when the statement demands rejection (negative, fractional, unknown unit, overflow); accept-either where the statement is silent (leading zeros, '+', outer whitespace, float-valued exponent scalars): an error is fine, a value must be exact; never a panic, never a wrapped value. refresh_rate (humantime): no panic, documented 'N seconds' form exact. non-trivial = number within 1 of an overflow threshold, or mixed-case unit, or whitespace before the unit, or an integer scalar above i64::MAX".into(),
+        rule: "cases = literals composed of a number (0, 1, every overflow threshold floor(MAX/1024^k)-1..+2 for MAX in {u64::MAX, i64::MAX}, 2^k+-1, random 1-20 digits, 21-30 digits, no digits at all), a decoration (none, '-', '+', '.5', 'e3', leading zeros), whitespace before the unit (none/spaces/tab/mixed), a unit (every documented spelling in random letter case, none, junk, or a documented unit followed by further words), optional outer whitespace, in one of seven carriers (YAML plain/quoted string, JSON string, TOML string, YAML/JSON/TOML bare numeric scalar), for SizeTriggerConfig (observed through Debug) and TimeTriggerInterval; oracle = u128 reference: value == number x unit (powers of 1024; named interval unit) when it fits u64 / i64, Err exactly when the statement demands rejection (negative, fractional, unknown unit, overflow); accept-either where the statement is silent (leading zeros, '+', outer whitespace, float-valued exponent scalars): an error is fine, a value must be exact; never a panic, never a wrapped value. refresh_rate (humantime): no panic, documented 'N seconds' form exact. non-trivial = number within 1 of an overflow threshold, or mixed-case unit, or whitespace before the unit, or an integer scalar above i64::MAX".into(),
         assumptions: vec!["TOML integers are 64-bit signed: larger integer scalars in TOML are unsettled (carrier limit)".into()],
         mutants_caught: vec![],
     }
